@@ -8,6 +8,7 @@ identity over any field.  What cannot be proved here — agreement of sin/cos/ta
 sqrt/powf/exp between libm, micromath and std — is covered only by the sweep (design/C20.md).
 -/
 import Retro.Model.FloatFallback
+import Retro.Model.Tex
 import Retro.Lemmas.FloatFallback
 import Retro.Spec.FloatSpec
 import Mathlib.Tactic.FieldSimp
@@ -183,12 +184,12 @@ example : FloatFallback.floor 0x7149F2CA = 0x7149F2CA := by decide +kernel   -- 
 
 /-! ### micromath's `floor` (the `mm` back end) -/
 
-/-- **mm_floor_exact.** Within the `i32` range micromath's truncate-and-adjust `floor` returns the
-mathematical floor. -/
-theorem mm_floor_exact {x : UInt32} {q : ℚ} (h : toRat? x = some q) (hq : |q| < 2 ^ 31) :
-    toRat? (mmFloor x) = some ((⌊q⌋ : ℤ) : ℚ) := by
+/-- Within the `i32` range micromath's own truncate-and-adjust `floor` returns the mathematical
+floor. -/
+theorem mm_floor_raw_exact {x : UInt32} {q : ℚ} (h : toRat? x = some q) (hq : |q| < 2 ^ 31) :
+    toRat? (mmFloorRaw x) = some ((⌊q⌋ : ℤ) : ℚ) := by
   have hrep := rep_of_toRat? h
-  unfold mmFloor
+  unfold mmFloorRaw
   -- t = trunc q, no saturation
   have hb := abs_ratTrunc_le q
   have hti : toI32Sat x = ratTrunc q := by
@@ -237,13 +238,53 @@ theorem mm_floor_exact {x : UInt32} {q : ℚ} (h : toRat? x = some q) (hq : |q| 
         rw [this, Int.floor_intCast]
     rw [hfl]
 
-example : toRat? 0xC0200000 = some (-5/2) ∧ toRat? (mmFloor 0xC0200000) = some (-3) := by decide +kernel
-
-/-- Beyond the `i32` range micromath's `floor` saturates: `floor(2^32) = 2^31`.  The `mm` back end's
-`floor` is *not* the mathematical floor there (recorded finding `mm-floor-saturates`). -/
-theorem mm_floor_saturates :
-    toRat? 0x4F800000 = some 4294967296 ∧ toRat? (mmFloor 0x4F800000) = some 2147483648 := by
+/-- Beyond the `i32` range micromath's own `floor` saturates: `floor(2^32) = 2^31` – the reason for
+the guard in the adapter (fixed defect `mm-floor-saturates`). -/
+theorem mm_floor_raw_saturates :
+    toRat? 0x4F800000 = some 4294967296 ∧ toRat? (mmFloorRaw 0x4F800000) = some 2147483648 ∧
+    mmFloor 0x4F800000 = 0x4F800000 := by
   decide +kernel
+
+/-- the guard of `mm::floor`, as for `fallback::floor` -/
+theorem mm_guard_none {x : UInt32} (h : toRat? x = none) : lt (abs x) two23 = false := by
+  unfold lt
+  by_cases hn : isNaN (abs x) = true
+  · simp [hn]
+  · have hn' : isNaN (abs x) = false := by simpa using hn
+    rw [hn', toRat?_abs_none h, toRat?_two23, signBit_abs]
+    simp [isNaN_eq_false_of_some toRat?_two23]
+
+/-- NaN and ±∞ pass through the guarded `mm::floor` unchanged. -/
+theorem mm_floor_nonfinite {x : UInt32} (h : toRat? x = none) : mmFloor x = x := by
+  unfold mmFloor; rw [mm_guard_none h]; rfl
+
+/-- **mm_floor_exact.** After fix 7bf834c the `mm` back end's `floor` returns the mathematical floor
+for *every* finite input (and NaN / ±∞ unchanged, `mm_floor_nonfinite`): below `2^23` micromath's
+truncate-and-adjust is exact, from `2^23` on the value is already an integer and is returned as is. -/
+theorem mm_floor_exact {x : UInt32} {q : ℚ} (h : toRat? x = some q) :
+    toRat? (mmFloor x) = some ((⌊q⌋ : ℤ) : ℚ) := by
+  unfold mmFloor
+  rw [lt_finite (toRat?_abs h) toRat?_two23]
+  by_cases hbig : |q| < 8388608
+  · simp only [hbig, decide_true, Bool.not_true, Bool.false_eq_true, ↓reduceIte]
+    exact mm_floor_raw_exact h (lt_trans hbig (by norm_num))
+  · simp only [hbig, decide_false, Bool.not_false, ↓reduceIte]
+    have hge : (2 : ℚ) ^ 23 ≤ |q| := by
+      have : (8388608 : ℚ) = 2 ^ 23 := by norm_num
+      rw [← this]; exact not_lt.1 hbig
+    obtain ⟨z, hz⟩ := rep_int_of_large (rep_of_toRat? h) hge
+    rw [h, hz, Int.floor_intCast]
+
+/-- The guarded `mm::floor` has the same value as the exact floor on every bit pattern. -/
+theorem mm_floor_same_value (x : UInt32) :
+    toRat? (mmFloor x) = toRat? (F32.floor x) ∧ (toRat? x = none → mmFloor x = F32.floor x) := by
+  cases h : toRat? x with
+  | none => exact ⟨by rw [mm_floor_nonfinite h, F32.floor_of_none h], fun _ => by
+      rw [mm_floor_nonfinite h, F32.floor_of_none h]⟩
+  | some q => exact ⟨by rw [mm_floor_exact h, floor_value h], fun hn => by cases hn⟩
+
+example : toRat? 0xC0200000 = some (-5/2) ∧ toRat? (mmFloor 0xC0200000) = some (-3) := by decide +kernel
+example : mmFloor 0x7149F2CA = 0x7149F2CA ∧ mmFloor 0x7FC00000 = 0x7FC00000 := by decide +kernel   -- 1e30, NaN
 
 /-! ### `rem_euclid` -/
 
@@ -632,109 +673,40 @@ theorem isInf_cases {x : UInt32} (h : toRat? x = none) (hn : isNaN x = false) :
   · right; rw [← hp]; decide
 
 /-- **Texture addressing is the same with every back end's `floor`.**  The index computation
-`floor(x) as i32` of the repeating sampler gives the same integer whether `floor` is the exact one
-(std, libm, the repaired fallback) or micromath's saturating one — for *every* bit pattern: inside the
-`i32` range micromath's floor is exact, beyond it both routes saturate to the same `i32` bound, NaN
-gives 0 on both. -/
+`floor(x) as i32` of the samplers gives the same integer whether `floor` is the exact one (std, libm),
+the repaired `fallback::floor` or the guarded `mm::floor` — for *every* bit pattern. -/
 theorem texture_addressing_same_with_mm_floor (x : UInt32) :
     toI32Sat (mmFloor x) = toI32Sat (F32.floor x) := by
   cases h : toRat? x with
-  | none =>
-    by_cases hn : isNaN x = true
-    · -- NaN: (NaN as i32) = 0, 0 as f32 = 0.0, NaN < 0.0 is false
-      have h1 : toI32Sat x = 0 := by unfold toI32Sat; exact toIntSat_nan hn
-      have h2 : mmFloor x = 0 := by
-        unfold mmFloor
-        rw [h1]
-        have : intToF32 0 = 0 := by unfold intToF32; simp [ofRat_zero]
-        rw [this]
-        simp only [lt_nan_left hn, Bool.false_eq_true, ↓reduceIte]
-      rw [h2, F32.floor_of_none h, h1]
-      decide +kernel
-    · rcases isInf_cases h (by simpa using hn) with hx | hx <;> rw [hx] <;> decide +kernel
+  | none => rw [(mm_floor_same_value x).2 h]
+  | some q => exact toI32Sat_congr (mm_floor_exact h) (floor_value h)
+
+theorem texture_addressing_same_with_fallback_floor (x : UInt32) :
+    toI32Sat (FloatFallback.floor x) = toI32Sat (F32.floor x) := by rw [fallback_floor_exact]
+
+/-- `x as u32` likewise depends only on the value. -/
+theorem toU32Sat_mm_floor (x : UInt32) : toU32Sat (mmFloor x) = toU32Sat (F32.floor x) := by
+  cases h : toRat? x with
+  | none => rw [(mm_floor_same_value x).2 h]
   | some q =>
-    by_cases hsmall : |q| < 2 ^ 31
-    · exact toI32Sat_congr (mm_floor_exact h hsmall) (floor_value h)
-    · have hbig : (2 : ℚ) ^ 31 ≤ |q| := not_lt.1 hsmall
-      have hrep := rep_of_toRat? h
-      obtain ⟨z, hz⟩ := rep_int_of_large hrep (le_trans (by norm_num) hbig)
-      have hfl : toRat? (F32.floor x) = some (z : ℚ) := by
-        rw [floor_value h, hz, Int.floor_intCast]
-      have hzt : ratTrunc q = z := by rw [hz]; exact ratTrunc_intCast z
-      rcases le_or_gt 0 q with hq0 | hq0
-      · -- q ≥ 2^31: both saturate to i32::MAX
-        have hq : (2 : ℚ) ^ 31 ≤ q := by rwa [abs_of_nonneg hq0] at hbig
-        have hzge : (2 : ℤ) ^ 31 ≤ z := by
-          have : ((2 ^ 31 : ℤ) : ℚ) ≤ (z : ℚ) := by rw [← hz]; push_cast; exact hq
-          exact_mod_cast this
-        have h1 : toI32Sat x = 2147483647 := by
-          unfold toI32Sat pow31
-          rw [toIntSat_finite h, hzt, if_neg (by omega), if_pos (by omega)]; rfl
-        have h2 : toI32Sat (F32.floor x) = 2147483647 := by
-          unfold toI32Sat pow31
-          rw [toIntSat_finite hfl, ratTrunc_intCast, if_neg (by omega), if_pos (by omega)]; rfl
-        have hres : toRat? (intToF32 2147483647) = some 2147483648 := by decide +kernel
-        have h3 : mmFloor x = intToF32 2147483647 := by
-          unfold mmFloor
-          rw [h1]; dsimp only
-          rw [lt_finite h hres]
-          have : ¬ q < 2147483648 := by
-            have : (2147483648 : ℚ) = 2 ^ 31 := by norm_num
-            rw [this]; exact not_lt.2 hq
-          simp only [this, decide_false, Bool.false_eq_true, ↓reduceIte]
-        rw [h3, h2]; decide +kernel
-      · -- q ≤ −2^31: both saturate to i32::MIN
-        have hq : q ≤ -(2 : ℚ) ^ 31 := by rw [abs_of_neg hq0] at hbig; linarith
-        have hzle : z ≤ -(2 : ℤ) ^ 31 := by
-          have : (z : ℚ) ≤ ((-(2 ^ 31) : ℤ) : ℚ) := by rw [← hz]; push_cast; exact hq
-          exact_mod_cast this
-        have h1 : toI32Sat x = -2147483648 := by
-          unfold toI32Sat pow31
-          rw [toIntSat_finite h, hzt]
-          by_cases hlt : z < -2147483648
-          · rw [if_pos hlt]
-          · rw [if_neg hlt, if_neg (by omega)]; omega
-        have h2 : toI32Sat (F32.floor x) = -2147483648 := by
-          unfold toI32Sat pow31
-          rw [toIntSat_finite hfl, ratTrunc_intCast]
-          by_cases hlt : z < -2147483648
-          · rw [if_pos hlt]
-          · rw [if_neg hlt, if_neg (by omega)]; omega
-        have hres : toRat? (intToF32 (-2147483648)) = some (-2147483648) := by decide +kernel
-        rw [h2]
-        unfold mmFloor
-        rw [h1]; dsimp only
-        rw [lt_finite h hres]
-        by_cases hlt : q < -2147483648
-        · -- res − 1.0 rounds somewhere in [−2^32, −2^31]: still saturates
-          simp only [hlt, decide_true, ↓reduceIte]
-          have hlo : Rep (-4294967296 : ℚ) := by
-            have : (-4294967296 : ℚ) = -((2 : ℚ) ^ (32 : ℕ)) := by norm_num
-            rw [this]; exact Rep.neg (rep_two_pow (by norm_num))
-          have hhi : Rep (-2147483648 : ℚ) := by
-            have : (-2147483648 : ℚ) = -((2 : ℚ) ^ (31 : ℕ)) := by norm_num
-            rw [this]; exact Rep.neg (rep_two_pow (by norm_num))
-          obtain ⟨v, hv, hv1, hv2⟩ := ofRat_between (q := (-2147483648 : ℚ) + -1) hlo hhi (by norm_num) (by norm_num)
-          have hsub : toRat? (sub (intToF32 (-2147483648)) one) = some v := by
-            unfold sub add
-            rw [isNaN_eq_false_of_some hres, isNaN_eq_false_of_some toRat?_neg_one, hres, toRat?_neg_one]
-            have : ((-2147483648 : ℚ) + -1 == 0) = false := by norm_num
-            simp only [Bool.or_self, Bool.false_eq_true, ↓reduceIte, this]
-            exact hv
-          unfold toI32Sat pow31
-          rw [toIntSat_finite hsub]
-          have hneg : v < 0 := by linarith
-          have htr : ratTrunc v ≤ -2147483648 := by
-            obtain ⟨-, hb2, -⟩ := (ratTrunc_bounds v).2 hneg
-            rw [ratTrunc_neg hneg]
-            have : (2147483648 : ℤ) ≤ ⌊-v⌋ := by
-              apply Int.le_floor.2; push_cast; linarith
-            omega
-          by_cases hl : ratTrunc v < -2147483648
-          · rw [if_pos hl]
-          · rw [if_neg hl, if_neg (by omega)]; omega
-        · simp only [hlt, decide_false, Bool.false_eq_true, ↓reduceIte]
-          decide +kernel
+    unfold toU32Sat; rw [toIntSat_finite (mm_floor_exact h), toIntSat_finite (floor_value h)]
+
+/-- **The samplers address the same texel in every configuration** (`Retro.Model.Tex`, with the
+back end's `floor` as parameter): no fp feature, `mm`, and the exact floor of std / libm. -/
+theorem samplers_same_for_all_backends :
+    Tex.repeatAxisF FloatFallback.floor = Tex.repeatAxis ∧ Tex.repeatAxisF mmFloor = Tex.repeatAxis ∧
+    Tex.clampAxisF FloatFallback.floor = Tex.clampAxis ∧ Tex.clampAxisF mmFloor = Tex.clampAxis := by
+  refine ⟨?_, ?_, ?_, ?_⟩
+  · funext mask x; unfold Tex.repeatAxis Tex.repeatAxisF; rw [fallback_floor_exact]
+  · funext mask x; unfold Tex.repeatAxis Tex.repeatAxisF; rw [texture_addressing_same_with_mm_floor]
+  · funext wf x; unfold Tex.clampAxis Tex.clampAxisF Tex.clampAxisHiF
+    cases clamp x 0 (sub wf one) with
+    | panic s => rfl
+    | ok c => simp only [fallback_floor_exact]
+  · funext wf x; unfold Tex.clampAxis Tex.clampAxisF Tex.clampAxisHiF
+    cases clamp x 0 (sub wf one) with
+    | panic s => rfl
+    | ok c => simp only [toU32Sat_mm_floor]
 
 /-- `a + b` depends only on the values of finite `a`, `b` when the exact sum is not zero. -/
 theorem add_congr_left {a a' b : UInt32} {x y : ℚ} (ha : toRat? a = some x) (ha' : toRat? a' = some x)
@@ -744,13 +716,13 @@ theorem add_congr_left {a a' b : UInt32} {x y : ℚ} (ha : toRat? a = some x) (h
   have : (x + y == 0) = false := by simpa using hne
   simp only [Bool.or_self, Bool.false_eq_true, ↓reduceIte, this]
 
-/-- **Pixel rounding is the same with micromath's `floor`**: whenever the rounded sum `x + 0.5` is finite
-and below `2^31` in magnitude (every screen coordinate), `floor(x + 0.5) + 0.5` returns the same bits
-with micromath's floor as with the exact one. -/
-theorem round_half_mm_eq {x : UInt32} {σ : ℚ} (hs : toRat? (add x half) = some σ) (h1 : |σ| < 2 ^ 31) :
+/-- **Pixel rounding is the same with the `mm` back end's `floor`**: whenever the rounded sum
+`x + 0.5` is finite, `floor(x + 0.5) + 0.5` returns the same bits with the guarded `mm::floor` as with
+the exact one. -/
+theorem round_half_mm_eq {x : UInt32} {σ : ℚ} (hs : toRat? (add x half) = some σ) :
     roundUpHalfFp mmFloor x = roundUpHalfFp F32.floor x := by
   unfold roundUpHalfFp
-  apply add_congr_left (mm_floor_exact hs h1) (floor_value hs) toRat?_half
+  apply add_congr_left (mm_floor_exact hs) (floor_value hs) toRat?_half
   have : (((⌊σ⌋ : ℤ) : ℚ)) + 1 / 2 = ((2 * ⌊σ⌋ + 1 : ℤ) : ℚ) / 2 := by push_cast; ring
   rw [this]
   have hodd : (2 * ⌊σ⌋ + 1 : ℤ) ≠ 0 := by omega
